@@ -69,7 +69,7 @@ func c08MakeSchema(r *gen.R, i int) (string, *ir.Request) {
 			q, _ := gen.SplitPathQuery(gen.GenRuntimeFile(rr, i, gen.RuntimeOpts{ManyMethods: true}))
 			return "runtime_split", q
 		}
-		return "runtime_original", gen.GenRuntimeFile(rr, i, gen.RuntimeOpts{ManyMethods: true, JSONNames: true})
+		return "runtime_original", gen.GenRuntimeFile(rr, i, gen.RuntimeOpts{ManyMethods: true, JSONNames: true, OddBasePaths: true, ReorderPathFields: true})
 	default:
 		if i%8 == 1 {
 			q, _ := gen.SplitPathQuery(gen.GenMultiServiceFile(rr, i, gen.RuntimeOpts{Headers: true, ManyMethods: true}))
